@@ -10,6 +10,6 @@ if ! git -C $WT apply $DST/patch.diff 2>>$LOG; then echo "patch does not apply o
 (cd $WT && go build ./...) >> $LOG 2>&1 || { echo "BUILD FAILS on current HEAD" | tee -a $LOG; git -C /repo worktree remove --force $WT; exit 2; }
 for c in $CHECKS; do
   echo "== check $c quick against the change (re-run on /repo HEAD $(git -C /repo rev-parse --short HEAD) after strengthening the check)" | tee -a $LOG
-  (cd /verif && VERIF_REPO=$WT ./check $c quick 2>&1 | cut -c1-300 | grep -E "^(VIOLATION|OK |INCONCLUSIVE|violation detail)" | sort -r | head -6) | tee -a $LOG
+  (cd /verif && VERIF_REPO=$WT ./check $c quick 2>&1 | cut -c1-300 | grep -a -E "^(VIOLATION|OK |INCONCLUSIVE|violation detail)" | sort -r | head -6) | tee -a $LOG
 done
 git -C /repo worktree remove --force $WT
